@@ -19,7 +19,8 @@ THEOREMS += [(MQ, "NQ.Qlink." + n) for n in ["response_conversion_copies_every_f
 MC = "NetqasmVerif.Props.C12Controller"
 THEOREMS += [(MC, "NQ.C12." + n) for n in [
     "controller_refines_exec", "controller_exactly_once", "controller_consumed_by_oldest_in_order",
-    "controller_consume_refines", "inv_controller_consume", "inv_controller_tick", "controller_wait_sound",
+    "controller_consume_refines", "inv_controller_consume", "inv_controller_handlePending",
+    "inv_controller_deliver", "inv_controller_tick", "controller_wait_sound",
     "epr_fault_atomic", "wait_block_unchanged", "controller_rejected_issue_unchanged", "controller_nonvacuous"]]
 MB = "NetqasmVerif.Props.C12Bridge"
 THEOREMS += [(MB, "NQ.C12." + n) for n in [
